@@ -20,6 +20,7 @@ mod g_hb;
 mod g_socks;
 mod g_hostile;
 mod g_cert;
+mod g_http;
 mod e2e;
 
 use std::io::Write;
@@ -51,6 +52,7 @@ fn group_by_name(name: &str) -> Option<Box<dyn Group>> {
         "socks" => Some(Box::new(g_socks::SocksGroup)),
         "hx" => Some(Box::new(g_hostile::HostileGroup)),
         "cert" => Some(Box::new(g_cert::CertGroup)),
+        "http" => Some(Box::new(g_http::HttpGroup)),
         _ => None,
     }
 }
